@@ -6,6 +6,8 @@ import RedisVerif.Driver.C15
 import RedisVerif.Driver.C04
 import RedisVerif.Driver.C03
 import RedisVerif.Driver.C02
+import RedisVerif.Driver.C11
+import RedisVerif.Driver.C12
 
 open RedisVerif.Driver
 
@@ -34,4 +36,7 @@ def main (args : List String) : IO UInt32 := do
   | ["C04"] => loop stdin stdout C04.step; return 0
   | ["C03"] => loopState stdin stdout C03.step C03.DState.init; return 0
   | ["C02"] => loopState stdin stdout C02.step ([] : C02.DState); return 0
+  | ["C11"] => loopState stdin stdout C11.step C11.init; return 0
+  | ["C12"] => loopState stdin stdout C12.step C12.init; return 0
+  | ["C13"] => loopState stdin stdout C12.step C12.init; return 0
   | _ => IO.eprintln "usage: rvdriver <property-id> < ops"; return 2
